@@ -910,8 +910,8 @@ fn execute_inner(ctx: &mut Ctx, lines: &[String]) -> Vec<String> {
     for (li, line) in lines.iter().enumerate() {
         if li < skip { continue; }
         let t = tokens(line);
-        let is_async = matches!(f.mode, Some(WriteMode::AsyncWith { .. }));
-        let buffered = f.mode.map_or(f.cfg.cap.is_some(), |m| !matches!(m, WriteMode::Direct));
+        let is_async = matches!(f.mode, Some(WriteMode::AsyncWith { .. }) | Some(WriteMode::Async));
+        let buffered = f.mode.map_or(f.cfg.cap.is_some(), |m| !matches!(m, WriteMode::Direct | WriteMode::SupportCapture));
         let ans: String = match t.as_slice() {
             ["CASE", ..] => header_answer(line),
             ["END"] => "END".into(),
@@ -970,11 +970,21 @@ fn execute_inner(ctx: &mut Ctx, lines: &[String]) -> Vec<String> {
             }
             ["MODE", m] => {
                 let p: Vec<&str> = m.split(':').collect();
-                f.mode = Some(match p[0] {
-                    "direct" => WriteMode::Direct,
-                    "buf" => WriteMode::BufferDontFlushWith(p[1].parse().unwrap()),
-                    "bufflush" => WriteMode::BufferAndFlushWith(p[1].parse().unwrap(), std::time::Duration::from_secs(3600)),
-                    "async" => WriteMode::AsyncWith { pool_capa: p[1].parse().unwrap(), message_capa: p[2].parse().unwrap(), flush_interval: std::time::Duration::from_secs(0) },
+                let ms = |x: &str| std::time::Duration::from_millis(x.parse().unwrap());
+                ctx.report.count(&format!("mode.{}{}", p[0], if (p[0] == "bufflush" && p.len() == 3) || (p[0] == "async" && p.len() == 4) { "+ticking-flusher" } else { "" }));
+                // the line names a PUBLIC variant of WriteMode; the model derives the effective mode
+                f.mode = Some(match (p[0], p.len()) {
+                    ("direct", 1) => WriteMode::Direct,
+                    ("capture", 1) => WriteMode::SupportCapture,
+                    ("bufdef", 1) => WriteMode::BufferDontFlush,
+                    ("buf", 2) => WriteMode::BufferDontFlushWith(p[1].parse().unwrap()),
+                    ("bufflushdef", 1) => WriteMode::BufferAndFlush,
+                    ("bufflush", 2) => WriteMode::BufferAndFlushWith(p[1].parse().unwrap(), std::time::Duration::from_secs(3600)),
+                    // a flusher thread that really ticks (every few milliseconds)
+                    ("bufflush", 3) => WriteMode::BufferAndFlushWith(p[1].parse().unwrap(), ms(p[2])),
+                    ("asyncdef", 1) => WriteMode::Async,
+                    ("async", 3) => WriteMode::AsyncWith { pool_capa: p[1].parse().unwrap(), message_capa: p[2].parse().unwrap(), flush_interval: std::time::Duration::from_secs(0) },
+                    ("async", 4) => WriteMode::AsyncWith { pool_capa: p[1].parse().unwrap(), message_capa: p[2].parse().unwrap(), flush_interval: ms(p[3]) },
                     _ => panic!("mode"),
                 });
                 f.w = None;
